@@ -419,15 +419,18 @@ def run_coq_cases(tag, header, exprs, log, shard=400, timeout=1500):
 
 
 def load_known_findings(pid):
-    path = os.path.join(VERIF, "known_findings.jsonl")
+    """entries of known_findings.txt for the property: `known:` lines carry a JSON
+    object with a `match`; `fixed:` lines are history and suppress nothing"""
+    path = os.path.join(VERIF, "known_findings.txt")
     res = []
     if os.path.exists(path):
         for line in open(path, encoding="utf-8"):
             line = line.strip()
-            if line and not line.startswith("#"):
-                o = json.loads(line)
-                if o.get("property") == pid:
-                    res.append(o)
+            m = re.match(r"known:\s+property=(\S+)\s+(\{.*\})\s+(.*)$", line)
+            if m and m.group(1) == pid:
+                o = json.loads(m.group(2))
+                o.update({"property": pid, "status": "known", "what": m.group(3)})
+                res.append(o)
     return res
 
 
